@@ -73,6 +73,14 @@ class Helper:
         if any(isinstance(n, (ast.Global, ast.Nonlocal)) for n in ast.walk(node)):
             self.ok = False
         self.single_expr = len(self.body) == 1 and isinstance(self.body[0], ast.Return) and self.body[0].value is not None and not self.is_gen
+        self.expr = self.body[0].value if self.single_expr else None
+        # a generator that is one loop yielding one expression is a generator expression
+        if self.is_gen and len(self.body) == 1 and isinstance(self.body[0], ast.For) and not self.body[0].orelse and len(self.body[0].body) == 1:
+            y = self.body[0].body[0]
+            if isinstance(y, ast.Expr) and isinstance(y.value, ast.Yield) and y.value.value is not None and not any(isinstance(n, (ast.Yield, ast.YieldFrom)) for n in ast.walk(y.value.value)):
+                loop = self.body[0]
+                self.expr = ast.copy_location(ast.GeneratorExp(elt=y.value.value, generators=[ast.comprehension(target=loop.target, iter=loop.iter, ifs=[], is_async=0)]), loop)
+                self.single_expr = True
         self.rebound = {n.id for n in ast.walk(node) if isinstance(n, ast.Name) and isinstance(n.ctx, (ast.Store, ast.Del))}
         self.self_recursive = any(isinstance(n, ast.Call) and _callee_name(n) == self.name for n in ast.walk(node))
         if self.self_recursive:
@@ -474,7 +482,7 @@ class Inliner:
         actual = self.bind(h, call, recv)
         if actual is None:
             return None
-        expr = copy.deepcopy(h.body[0].value)
+        expr = copy.deepcopy(h.expr)
         uses = {}
         for n in ast.walk(expr):
             if isinstance(n, ast.Name):
